@@ -17,7 +17,10 @@ def agree(summary, real):
 
 
 def main(tier, seed):
-    chk = orch_common.run("C18", tier, seed, technique="(i) DSE of the real main.py with stubs: existence of a chronological chain of visited iterates reproducing sk/yk, decided by z3; (ii) real extract_hess_inv_diag on SciPy's LbfgsInvHessProduct source with symbolic pairs, identities decided on normal forms")
+    # a user gradient that fills and returns one work array: the stored history must not alias it
+    extra = [dict(maxiter=3, maxfun=8, maxls=1, ftol="sym", ls_mode="lean", maxcor=2, jac_buffer=1, groups=["C18"]),
+             dict(maxiter=2, maxfun=6, maxls=2, ftol="sym", ls_mode="contract", ls_tmax=2, maxcor=2, jac_buffer=1, callback_kind="choose", groups=["C18"])]
+    chk = orch_common.run("C18", tier, seed, extra_jobs=extra, technique="(i) DSE of the real main.py with stubs: existence of a chronological chain of visited iterates reproducing sk/yk, decided by z3; (ii) real extract_hess_inv_diag on SciPy's LbfgsInvHessProduct source with symbolic pairs, identities decided on normal forms")
     T = "harness.c18:path"
     jobs = [(T, dict(n=1, m=1)), (T, dict(n=2, m=1)), (T, dict(n=2, m=2)), (T, dict(n=3, m=1)), (T, dict(n=3, m=2, nsym=1, seed=seed)),
             (T, dict(n=3, m=3, nsym=1, seed=seed))]
